@@ -85,19 +85,27 @@ class Register:
                     raise JaqalError(
                         f"Cannot slice parameter {alias_from.name} of non-register kind {alias_from.kind}."
                     )
-            else:
-                for bound in (alias_slice.start, alias_slice.stop, alias_slice.step):
-                    if bound is not None and not isinstance(bound, int):
-                        raise JaqalError(f"Slice bound {bound} is not an integer.")
-                if alias_slice.start is not None and alias_slice.start < 0:
+
+            # Every bound that is a literal is checked, whatever the others are
+
+            def literal(bound):
+                return bound is not None and not isinstance(bound, AnnotatedValue)
+
+            for bound in (alias_slice.start, alias_slice.stop, alias_slice.step):
+                if literal(bound) and not isinstance(bound, int):
+                    raise JaqalError(f"Slice bound {bound} is not an integer.")
+            if literal(alias_slice.start) and alias_slice.start < 0:
+                raise JaqalError("Index out of range.")
+            if literal(alias_slice.step) and alias_slice.step < 1:
+                raise JaqalError("Invalid slice step.")
+            if (
+                literal(alias_slice.stop)
+                and not isinstance(alias_from, AnnotatedValue)
+                and alias_from.size is not None
+                and not isinstance(alias_from.size, AnnotatedValue)
+            ):
+                if alias_slice.stop > alias_from.size:
                     raise JaqalError("Index out of range.")
-                if alias_slice.step is not None and alias_slice.step < 1:
-                    raise JaqalError("Invalid slice step.")
-                if alias_from.size is not None and not isinstance(
-                    alias_from.size, AnnotatedValue
-                ):
-                    if alias_slice.stop > alias_from.size:
-                        raise JaqalError("Index out of range.")
 
     def __hash__(self):
         return hash((self.__class__, self._name, self._size))
